@@ -7,7 +7,10 @@ import (
 	"time"
 
 	"golang.org/x/time/rate"
+	"k8s.io/apimachinery/pkg/runtime"
+	"sigs.k8s.io/controller-runtime/pkg/client"
 
+	networkv1beta1 "github.com/AliyunContainerService/terway/pkg/apis/network.alibabacloud.com/v1beta1"
 	"github.com/AliyunContainerService/terway/types/daemon"
 )
 
@@ -64,3 +67,24 @@ func (l *Local) VerifENIID() string {
 
 // VerifSyncPool runs one balancer round (production: every >= 2 min).
 func (m *Manager) VerifSyncPool(ctx context.Context) { m.syncPool(ctx) }
+
+// NewVerifCRDV2 builds the CRD-mode interface over an injected client (NewCRDV2 needs a live
+// cluster and starts a manager).
+func NewVerifCRDV2(c client.Client, scheme *runtime.Scheme, nodeName string) *CRDV2 {
+	return &CRDV2{scheme: scheme, client: c, nodeName: nodeName, deletedPods: make(map[string]*networkv1beta1.RuntimePodStatus), cacheSyncedCh: make(chan struct{})}
+}
+
+// one round of the periodic reporters
+func (r *CRDV2) VerifSyncNodeRuntime(ctx context.Context) error { return r.syncNodeRuntime(ctx) }
+func (r *CRDV2) VerifSyncDeletedPods(ctx context.Context) error { return r.syncDeletedPods(ctx) }
+
+// VerifPendingDeleted returns the pod UIDs whose DEL report is buffered and not yet flushed.
+func (r *CRDV2) VerifPendingDeleted() []string {
+	r.lock.Lock()
+	defer r.lock.Unlock()
+	var out []string
+	for k := range r.deletedPods {
+		out = append(out, k)
+	}
+	return out
+}
